@@ -42,7 +42,8 @@ def marker_expected(v, ref, cap):
     return out
 
 
-def check_formats(j1, j2, tables, ctxname):
+def check_formats(j1, j2, tables, ctxname, group_names=None):
+    """group_names: optional {symbol: display name} (unique names) so that refgroup rows can be judged as well."""
     """j1, j2: parsed JSON; tables: list of (threshold string, table bytes). Returns list of (clause, detail)."""
     probs = []
     metrics = {}
@@ -108,9 +109,27 @@ def check_formats(j1, j2, tables, ctxname):
                 if bad:
                     probs.append(("table-value-not-a-rendering-of-json-value", {"sym": sym, "value": v, "cell": numeral + " " + us,
                                                                                  "clauses": bad}))
-        # refgroup rows (scale 25000)
-        for path, r in other:
-            pass
+        # refgroup rows (scale 25000): value cell must be a correct rendering of the group's count
+        if group_names:
+            byname = {}
+            for path, r in other:
+                byname.setdefault(r.name.decode("utf-8", "replace"), []).append(r)
+            for sym, disp in group_names.items():
+                cnt = groups.get(sym)
+                if cnt is None or sym == "":
+                    continue
+                rows_ = byname.get(disp, [])
+                acc = shown_expected(cnt, 25000.0, T, O.U32)
+                if (len(rows_) > 0) not in acc:
+                    probs.append(("refgroup-row-shown-iff-ratio>=threshold", {"group": sym, "count": cnt, "threshold": ts, "shown": len(rows_)}))
+                for r in rows_[:1]:
+                    try:
+                        bad, _ = judge_py(cnt, False, r.value.decode("ascii"), r.unit.decode("ascii"), "")
+                    except UnicodeDecodeError:
+                        bad = ["value-cell-not-ascii"]
+                    if bad:
+                        probs.append(("refgroup-table-value-not-a-rendering-of-json-value", {"group": sym, "name": disp, "count": cnt,
+                                                                                            "cell": r.value + b" " + r.unit, "clauses": bad}))
         if not any_row and not tab.no_problems:
             probs.append(("empty-table-instead-of-no-problems-line", {"threshold": ts}))
         # a section header without rows beneath it
@@ -158,9 +177,11 @@ def api_level(chk, b, tier):
                 kk = rng.randint(1, 31)
                 v = int(math.ceil(kk * sc)) + rng.choice([0, -1])
             fields[k] = max(0, min(cap, v))
-        groups = [{"symbol": "", "name": "Refs"}, {"symbol": "branches", "name": "Branches"}, {"symbol": "a", "name": "A"},
-                  {"symbol": "a.b", "name": "B"}, {"symbol": "a.other", "name": "Other"}, {"symbol": "ignored", "name": "Ignored"}]
-        gc = {"": 5, "branches": rng.choice([1, 25000, 30 * 25000, 31 * 25000 + 1]), "a": 3, "a.b": rng.choice([1, 24999, 25000])}
+        nm = lambda base: base + "-" + "n" * rng.choice([0, 3, 12, 16, 20, 22, 24, 26, 30, 45])
+        groups = [{"symbol": "", "name": "Refs"}, {"symbol": "branches", "name": nm("Branches")}, {"symbol": "a", "name": nm("Alpha")},
+                  {"symbol": "a.b", "name": nm("Beta")}, {"symbol": "a.other", "name": "Other-a"}, {"symbol": "ignored", "name": "Ignored"}]
+        gc = {"": 5, "branches": rng.choice([1, 123, 12500, 25000, 30 * 25000, 31 * 25000 + 1]), "a": rng.choice([3, 777, 99999]),
+              "a.b": rng.choice([1, 24999, 25000, 1234567])}
         if rng.random() < 0.5:
             gc["ignored"] = rng.choice([1, 50000])
         cases.append({"id": i, "fields": fields, "groups": groups, "group_counts": gc, "thresholds": THRESHOLDS, "names": ["none"]})
@@ -187,7 +208,8 @@ def api_level(chk, b, tier):
                 chk.violation("C11/api/table-missing", {"threshold": ts, "info": str({k: v for k, v in rd.items() if "panic" in k or "err" in k})[:300]})
                 continue
             tables.append((ts, base64.b64decode(tb)))
-        for clause, det in check_formats(j1, j2, tables, "api"):
+        gnames = {g["symbol"]: g["name"] for g in c["groups"]}
+        for clause, det in check_formats(j1, j2, tables, "api", group_names=gnames):
             chk.violation("C11/api/" + clause, dict(det, fields={k: c["fields"][k] for k in list(c["fields"])[:0]}))
         chk.nontrivial(("vec", o["id"]))
     chk.cov["api_vectors"] = len(obs)
@@ -301,6 +323,8 @@ def run(chk, b, tier):
             chk.nontrivial(("repo", i))
         if r["sample"]:
             chk.sample(r["sample"], limit=5)
+    from .C07 import many_refs_case
+    many_refs_case(chk, sz, scratch, 120000 if tier == "quick" else 400000, prefix="C11")
     chk.cov["cli_repositories"] = n
     chk.cov["rule"] = ("API: synthetic HistorySize vectors (each metric at k*reference, +-1, 0, cap-1, cap, float-boundary values) "
                        "through the real TableString / JSON v1 / JSON v2 for 12 thresholds; CLI: 'concerning' repositories "
